@@ -622,6 +622,11 @@ def load_corpus():
 def main():
     chk = Check("C17", groups=["stacking"])
     chk.build_props()
+    from harness.c01_branchcov import BranchCov, summarize
+
+    cov = BranchCov(['stable_baselines3/common/vec_env/stacked_observations.py', 'stable_baselines3/common/vec_env/vec_frame_stack.py', 'stable_baselines3/common/vec_env/vec_transpose.py', 'stable_baselines3/common/vec_env/vec_extract_dict_obs.py', 'stable_baselines3/common/vec_env/vec_monitor.py', 'stable_baselines3/common/vec_env/vec_check_nan.py', 'stable_baselines3/common/vec_env/base_vec_env.py', 'stable_baselines3/common/vec_env/__init__.py']) if BranchCov.enabled() else None
+    if cov:
+        cov.start()
     cases = load_corpus()
     n_corpus = len(cases)
     n_gen = 350 if chk.tier == "quick" else 4000
@@ -691,6 +696,9 @@ def main():
         "stacks containing VecNormalize are checked against the numpy oracle only (flags unchanged, rewards transformed by the normaliser only, observations and terminal "
         "observations through one function with the statistics after the step, rel 1e-5); the statistics themselves are C15's",
     ]
+    if cov:
+        cov.stop()
+        chk.notes["branch_coverage_unexecuted"] = summarize(cov.report(), common.REPO)
     return chk.finish()
 
 
